@@ -59,12 +59,16 @@ PLAN = {
              "for embassy_time_driver); known findings C06-U1..U5",
     ),
     "C07": dict(
-        verus=["group_cycle"], kani=[], level="proof",
-        claim="leaf functions of the process-data cycle, verbatim (Verus, unbounded): push_state_checks pushes exactly k = min(devices left, floor(free/14), 129) "
-              "FPRD(AlStatus, 2 bytes) datagrams for the next k SubDevices in group order and never fails; process_received_pdi_chunk copies the response "
-              "into exactly the input part of this chunk's range and leaves every other byte of the image (all outputs) unchanged, Err iff the datagram is too short",
-        note="CreatedFrame is seen through its push contract (decided by the C04 check); the chunk loops of tx_rx / tx_rx_sync_system_time / tx_rx_dc "
-             "(tiling, termination, counter sum) are NOT yet under contract - the claim is narrowed to the leaves (DESIGN.md C07 fallback)",
+        verus=["group_cycle"], kani=["wkc", "frame_build"], level="proof",
+        claim="SubDeviceGroup::tx_rx extracted WHOLE and verbatim (Verus, any image length <= MAX_PDI, any input/output split, any number of SubDevices, any "
+              "frame size from one state check up to 2047): each frame's process-data datagram is an LRW at start + (bytes sent so far) carrying exactly the next "
+              "n = min(bytes left, free-12) > 0 image bytes (chunks tile the window contiguously, no gap, no overlap); the output part of the image is untouched; "
+              "the input part equals the bytes returned for those addresses; the reported counter is the (saturating) sum of the LRW counters; one state per "
+              "SubDevice; on Ok the whole image was sent and every SubDevice checked; the loop terminates (measure: bytes left + devices left). Leaves: "
+              "push_state_checks (k = min(devices left, floor(free/14), 129), group order), process_received_pdi_chunk (full frame condition).",
+        note="network = echo-shape assumption (a reply has the datagram boundaries of the request, contents arbitrary); CreatedFrame seen through its push contract "
+             "(decided by C04, bounded) and ReceivedPduIter::next through its contract (Kani wkc::rx_pdu_iter, bounded DATA=44); tx_rx_sync_system_time and tx_rx_dc "
+             "have the same loop shape but are NOT yet extracted; 'states in group order' is proved as a count, not per entry",
     ),
     "C18": dict(
         verus=["dc_arith"], kani=[], level="proof",
